@@ -95,6 +95,11 @@ def _replay(idx, h):
                     for sid_, n_ in CipherSuite.ietfNames.items():
                         if n_ == sib:
                             session.cipherSuite = sid_
+            if arg == "verRaised":
+                # both sides now enable TLS 1.3 as well; the client still holds (and offers) its older session
+                cs["maxVersion"] = ss["maxVersion"] = (3, 4)
+                cs["cipherNames"] = list(cs.get("cipherNames", [])) + ["aes128gcm", "aes256gcm"]
+                cs["macNames"] = list(cs.get("macNames", [])) + ["aead", "sha256", "sha384"]
             if arg == "emsDropped":
                 cs["useExtendedMasterSecret"] = False
             if arg == "etmDropped":
@@ -149,12 +154,12 @@ def _replay(idx, h):
             if ok and want_cid != "-":
                 # a connection that was resumed against the prediction is reported by the clauses below
                 exp = want_cid
-                if pred in ("full", "full-or-abort") and not resumed_wire:
+                if pred in ("full", "full-or-abort", "full-end") and not resumed_wire:
                     exp = "A" if (auth and nconnect == 1) else "none"
                 if (pred != "resume" or resumed_wire) and obs["cid"] != exp and not (pred != "resume" and resumed_wire):
                     bad.append(("identity-from-proof-or-resumption",
                                 "server attributes client identity %r, expected %r" % (obs["cid"], exp)))
-            if pred == "full":
+            if pred in ("full", "full-end"):
                 if not ok:
                     bad.append(("falls-back-cleanly", "full handshake expected but connection failed: %s / %s" % (obs["c"], obs["s"])))
                 elif resumed_wire:
